@@ -62,6 +62,32 @@ theorem C02_vdh_is_conjugate (m psiMx dpsiMx psiX dpsiX : ℝ) (xiX dxiX : ℂ) 
   rw [(C02_vdh_eq_bh _ _ _ _ _ _ _).1]
   simp only [coeffA453, map_div₀, map_sub, map_mul, Complex.conj_ofReal]
 
+/-- the same for an ABSORBING sphere: the van de Hulst coefficients evaluated at the CONJUGATE index
+(with ψ(conj z) = conj ψ(z), which holds for the Riccati-Bessel functions because their power series have
+real coefficients, and h⁽²⁾ = conj h⁽¹⁾ at the real size parameter) are the conjugates of Bohren &
+Huffman's at the index itself.  Hence a lens theory built on `calculate_al_bl` must hand it the conjugate of
+holopy's (B&H's, positive-imaginary = absorbing) relative index -/
+theorem C02_vdh_conj_index (m psiMx dpsiMx : ℂ) (psiX dpsiX : ℝ) (xiX dxiX : ℂ) :
+    coeffAvdH (starRingEnd ℂ m) (starRingEnd ℂ psiMx) (starRingEnd ℂ dpsiMx) psiX dpsiX
+        (starRingEnd ℂ xiX) (starRingEnd ℂ dxiX) =
+      starRingEnd ℂ (coeffA453 m psiMx dpsiMx psiX dpsiX xiX dxiX) ∧
+    coeffBvdH (starRingEnd ℂ m) (starRingEnd ℂ psiMx) (starRingEnd ℂ dpsiMx) psiX dpsiX
+        (starRingEnd ℂ xiX) (starRingEnd ℂ dxiX) =
+      starRingEnd ℂ (coeffB453 m psiMx dpsiMx psiX dpsiX xiX dxiX) := by
+  constructor
+  · rw [(C02_vdh_eq_bh _ _ _ _ _ _ _).1]
+    simp only [coeffA453, map_div₀, map_sub, map_mul, Complex.conj_ofReal]
+  · rw [(C02_vdh_eq_bh _ _ _ _ _ _ _).2]
+    simp only [coeffB453, map_div₀, map_sub, map_mul, Complex.conj_ofReal]
+
+/-- without the conjugation of the index the coefficients are those of the gain medium `conj m`: the
+defect MieLens had for absorbing spheres (repaired in /repo; regression statement) -/
+theorem C02_vdh_unconjugated_is_gain (m psiMx dpsiMx : ℂ) (psiX dpsiX : ℝ) (xiX dxiX : ℂ) :
+    coeffAvdH m psiMx dpsiMx psiX dpsiX (starRingEnd ℂ xiX) (starRingEnd ℂ dxiX) =
+      starRingEnd ℂ (coeffA453 (starRingEnd ℂ m) (starRingEnd ℂ psiMx) (starRingEnd ℂ dpsiMx) psiX dpsiX xiX dxiX) := by
+  have h := (C02_vdh_conj_index (starRingEnd ℂ m) (starRingEnd ℂ psiMx) (starRingEnd ℂ dpsiMx) psiX dpsiX xiX dxiX).1
+  simpa using h
+
 /-! ### layered spheres -/
 
 /-- one step of Yang's recursion across an interface between two layers of the SAME index leaves
